@@ -468,9 +468,40 @@ def _undecided(name, e):
     return Instance("R-ANCHOR", f"{name}#anchor", UNDET, str(e), "")
 
 
+def _unread_shapes(prog: Program, run: Run) -> None:
+    """Structural pattern matching beyond the simple forms the loader re-writes (singletons, values, bare class patterns) is
+    not read by the path-condition machinery: a clause that finds fault with a function still containing such a `match`
+    statement has not understood the function - it is undecided there, not violated.  (Rules that do not depend on path
+    conditions - R-API, R-AXIS sinks, R-INFALSE ... - are not affected: only R-GUARDSEQ / R-CRSGUARD / R-NEGIDX / R-CACHE /
+    R-SIGNROLE / R-LOCK / R-FILL / R-EMPTY / R-SIBLING / R-EXHAUST / R-ROUND clauses are.)"""
+    import ast as _ast
+
+    from .report import BAD, UNDET
+
+    affected = ("R-GUARDSEQ", "R-CRSGUARD", "R-NEGIDX", "R-CACHE", "R-SIGNROLE", "R-LOCK", "R-FILL", "R-EMPTY", "R-SIBLING", "R-EXHAUST", "R-ROUND", "R-VALUEOBJ", "R-MPU")
+    memo = {}
+    for i in run.instances:
+        if i.status != BAD or i.rule not in affected:
+            continue
+        q = i.construct.split("#")[0]
+        if q not in memo:
+            f = prog.functions.get(q)
+            memo[q] = bool(f is not None and not isinstance(f.node, _ast.Lambda) and any(isinstance(n, _ast.Match) for n in _ast.walk(f.node)))
+            memo[q + "|walrus"] = bool(f is not None and not isinstance(f.node, _ast.Lambda) and any(isinstance(n, _ast.NamedExpr) for n in _ast.walk(f.node)))
+        if not memo[q] and i.rule in ("R-CACHE", "R-LOCK", "R-FILL") and memo.get(q + "|walrus"):
+            # value-flow clauses of these rules follow plain assignments only: a value bound by `:=` inside a test is not followed
+            i.status = UNDET
+            i.why = "function binds values with assignment expressions (:=) this clause does not follow; the clause said: " + i.why
+            continue
+        if memo[q]:
+            i.status = UNDET
+            i.why = "function uses structural pattern matching this analysis does not read; the clause said: " + i.why
+
+
 def _with_generic(pid, fn):
     def wrapped(prog: Program, run: Run, tier: str) -> None:
         fn(prog, run, tier)
+        _unread_shapes(prog, run)
         for _nm in ROUND4.get(pid, []):
             try:
                 run.add(getattr(round4, _nm)(prog), "round-4 clause: " + (getattr(round4, _nm).__doc__ or "").split(".")[0].strip() + " (structural part of a repaired defect; see rules/round4.py)")
